@@ -56,6 +56,25 @@ func errOfCode(c int) error {
 
 // scriptReader is an io.Reader following a list of responses; it never
 // returns (0, nil).
+// leafReader is one part of a multi-part stream: a plain reader (no WriterTo) that consumes the next
+// `left` bytes of the shared payload.
+type leafReader struct {
+	src  *scriptReader
+	left int
+}
+
+func (l *leafReader) Read(p []byte) (int, error) {
+	if l.left == 0 {
+		return 0, io.EOF
+	}
+	k := min(len(p), l.left)
+	copy(p, l.src.payload[:k])
+	l.src.payload = l.src.payload[k:]
+	l.src.handed += k
+	l.left -= k
+	return k, nil
+}
+
 type scriptReader struct {
 	payload []byte
 	resps   []resp
@@ -526,6 +545,22 @@ func (e *pExec) step(line string) (out string) {
 	case "wrap":
 		e.rd = &scriptReader{payload: unhx(ws[1]), resps: parseResps(ws[2])}
 		e.wp = lz.Wrap(e.rd, e.p)
+		return "ok"
+	case "wrapm":
+		// a reader whose dynamic type offers io.WriterTo built on io.Copy: io.MultiReader over plain
+		// readers (oracle-only scripts; the parts partition the payload)
+		e.rd = &scriptReader{payload: unhx(ws[1])}
+		parts, _ := strconv.Atoi(ws[2])
+		total := len(e.rd.payload)
+		var rs []io.Reader
+		for i := 0; i < parts; i++ {
+			n := total / parts
+			if i == parts-1 {
+				n = total - (parts-1)*(total/parts)
+			}
+			rs = append(rs, &leafReader{src: e.rd, left: n})
+		}
+		e.wp = lz.Wrap(io.MultiReader(rs...), e.p)
 		return "ok"
 	case "wparse":
 		if e.wp == nil {
